@@ -246,8 +246,8 @@ Substring(n, s, e) ==          \* __Pyx_PyUnicode_Substring
   LET s1 == CropStart(n, s) e1 == CropStop(n, e) IN
   IF e1 <= s1 THEN Ok(":") ELSE IF s1 = 0 /\ e1 = n THEN Ok(SeqOut(Orig(n))) ELSE Ok(Copy(n, s1, e1 - s1))
 
-ImplSlice(c, op, m, n, sb, eb) ==
-  IF c.decl = "object" THEN Ok(RefSlice(c.kind, op, m, n, PyB(sb), PyB(eb), NONE))   \* __Pyx_PyObject_GetSlice/SetSlice: slice object
+ImplSlice(c, op, m, n, sb, eb, r) ==   \* r: the reference outcome (what CPython does with the same slice object)
+  IF c.decl = "object" THEN Ok(r)                                      \* __Pyx_PyObject_GetSlice/SetSlice: slice object
   ELSE LET cs == CBound(sb, 0) ce == CBound(eb, SMAX) IN
        IF cs > 30000 THEN ErrOut(cs) ELSE IF ce > 30000 THEN ErrOut(ce)
        ELSE IF n < 0 THEN Ok(ET)
@@ -302,16 +302,21 @@ Group ==
         /\ GroupOk(c, om, n)
         /\ cse' = [lvl |-> 1, c |-> c, op |-> om[1], m |-> om[2], n |-> n]
   /\ row' = <<>>
+\* With the default nonecheck=False, C-integer indexing of a str/bytes/bytearray-typed variable that holds None is
+\* not guarded (only list/tuple get an explicit test): outside the property's quantifier (a sequence of length 0..8).
+NoneUnchecked(c, t, op, n) ==
+  n < 0 /\ c.decl = "typed" /\ t.nm # "obj" /\ ((op = "get" /\ c.kind \in {"str", "bytes", "bytearray"}) \/ (op = "set" /\ c.kind = "bytearray"))
 IndexCase ==
   /\ cse.lvl = 1 /\ Part = "index"
   /\ \E t \in ITypes :
+        /\ ~NoneUnchecked(cse.c, t, cse.op, cse.n)
         /\ cse' = [lvl |-> 2, c |-> cse.c, op |-> cse.op, m |-> cse.m, n |-> cse.n, t |-> t]
         /\ row' = [v \in IdxDom(t) |-> Cell(RefIndex(cse.c, t, cse.op, cse.n, v), ImplIndex(cse.c, t, cse.op, cse.n, v))]
 SliceCase ==
   /\ cse.lvl = 1 /\ Part = "slice"
   /\ \E sb \in SliceStarts :
         /\ cse' = [lvl |-> 2, c |-> cse.c, op |-> cse.op, m |-> cse.m, n |-> cse.n, sb |-> sb]
-        /\ row' = [eb \in StopDom(sb) |-> Cell(RefSliceB(cse.c, cse.op, cse.m, cse.n, sb, eb), ImplSlice(cse.c, cse.op, cse.m, cse.n, sb, eb))]
+        /\ row' = [eb \in StopDom(sb) |-> LET r == RefSliceB(cse.c, cse.op, cse.m, cse.n, sb, eb) IN Cell(r, ImplSlice(cse.c, cse.op, cse.m, cse.n, sb, eb, r))]
 XSliceCase ==   \* x[s:e:st] is PyObject_GetItem/SetItem/DelItem with a slice object: no Cython logic of its own
   /\ cse.lvl = 1 /\ Part = "xslice"
   /\ \E s \in XVals, st \in XSteps :
@@ -349,9 +354,11 @@ MacrosSound ==
     /\ \A v \in TMin(cse.t)..TMax(cse.t) : Fits(cse.t, v) <=> InSsize(v)
     /\ cse.n >= 0 => \A i \in SMIN..SMAX : Valid(i, cse.n) <=> (i >= 0 /\ i < cse.n)
 \* the reference slice algorithm selects exactly the declaratively defined indices
+\* (a statement about (n, start, stop, step) only: evaluated on the states of one container and operation)
 RefSound ==
-  /\ Part = "slice" => \A k \in Keys : SliceWellFormed(cse.n, PyB(cse.sb), PyB(k), NONE)
-  /\ Part = "xslice" => \A k \in Keys : SliceWellFormed(cse.n, cse.s, k, cse.st)
+  (Leaf /\ cse.c = [decl |-> "typed", kind |-> "list"] /\ cse.op = "get") =>
+    /\ Part = "slice" => \A k \in Keys : SliceWellFormed(cse.n, PyB(cse.sb), PyB(k), NONE)
+    /\ Part = "xslice" => \A k \in Keys : SliceWellFormed(cse.n, cse.s, k, cse.st)
 \* shape of reference outcomes: a successful mutation has the right length
 RefShape ==
   Part = "index" => \A k \in Keys :
